@@ -118,8 +118,9 @@ def transclude(src, search_path, source_path, fmt=0):
     man = _take(m.value)
     return out, (man or b"").decode(errors="replace").splitlines()
 
-def manifest(src, search_path, source_path):
-    return (_take(lib().vp_manifest(src, search_path, source_path)) or b"").decode(errors="replace").splitlines()
+def manifest(src, search_path, source_path, fam=0):
+    L = lib(); L.vp_manifest_fam.restype = c_void_p; L.vp_manifest_fam.argtypes = [c_char_p, c_char_p, c_char_p, c_int]
+    return (_take(L.vp_manifest_fam(src, search_path, source_path, fam)) or b"").decode(errors="replace").splitlines()
 
 def opml_to_text(src):
     return _take(lib().vp_opml_to_text(src))
